@@ -90,6 +90,10 @@ class Ctx:
                 self.known_hits.append((k, obligation))
                 return
         path = os.path.join(REPLAY, '%s_%s.json' % (self.prop, slug(key)))
+        if any(v['replay'] == path for v in self.violations):
+            # two obligations whose keys share the first 60 characters: keep both replay files
+            import hashlib
+            path = path[:-5] + '_' + hashlib.sha1(key.encode()).hexdigest()[:6] + '.json'
         rec = dict(property=self.prop, key=key, obligation=obligation, engine=engine,
                    verifier_output=detail, witness=witness, replay_cmd=replay_cmd,
                    failing_input_found=witness is not None)
